@@ -246,6 +246,9 @@ func (B *Bounds) proveReqAt(bf *boundsFn, e aff, blk *ssa.BasicBlock, at ssa.Ins
 	for _, f := range bf.facts[blk] {
 		cands = append(cands, e.add(f, -1))
 	}
+	for _, f := range bf.global {
+		cands = append(cands, e.add(f, -1))
+	}
 	for _, cand := range cands {
 		if !bf.paramOnly(cand) {
 			continue
@@ -254,6 +257,7 @@ func (B *Bounds) proveReqAt(bf *boundsFn, e aff, blk *ssa.BasicBlock, at ssa.Ins
 		why := ""
 		for _, ci := range callers {
 			cf := B.of(ci.Parent())
+			B.ensurePassed(cf, nil)
 			g, ok := cf.substParams(cand, bf.fn, ci.Common().Args)
 			if !ok {
 				all = false
@@ -261,7 +265,7 @@ func (B *Bounds) proveReqAt(bf *boundsFn, e aff, blk *ssa.BasicBlock, at ssa.Ins
 			}
 			if ok2, _ := B.proveReqAt(cf, g, ci.Block(), ci, depth+1); !ok2 {
 				all = false
-				why = "not established at call site in " + ci.Parent().String() + " (" + B.P.Pos(ci.Pos()) + ")"
+				why = "not established at call site in " + ci.Parent().String() + " (" + B.P.Pos(ci.Pos()) + "): need " + cf.affString(g) + " ≥ 0"
 				break
 			}
 		}
@@ -377,6 +381,28 @@ func (B *Bounds) reachable() map[*ssa.Function]bool {
 	return seen
 }
 
+// ensurePassed registers the bounds checks of bf.fn as facts for the code
+// they dominate (execution only continues if they did not panic). Done on
+// first use, so that a requirement lifted to a caller that has not had its
+// own turn yet finds the caller's checks as well.
+func (B *Bounds) ensurePassed(bf *boundsFn, sites []bSite) {
+	if bf.passed != nil {
+		return
+	}
+	bf.passed = map[*ssa.BasicBlock][]passedCheck{}
+	if sites == nil {
+		sites = B.sites(bf.fn)
+	}
+	for _, s := range sites {
+		if s.kind != "index" && s.kind != "slice" && s.kind != "contract" && s.kind != "make" {
+			continue
+		}
+		for _, q := range s.reqs {
+			bf.passed[s.ins.Block()] = append(bf.passed[s.ins.Block()], passedCheck{s.ins, q.e})
+		}
+	}
+}
+
 func (B *Bounds) checkAll() []bResult {
 	var res []bResult
 	reach := B.reachable()
@@ -387,17 +413,7 @@ func (B *Bounds) checkAll() []bResult {
 		}
 		bf := B.of(fn)
 		sites := B.sites(fn)
-		if bf.passed == nil {
-			bf.passed = map[*ssa.BasicBlock][]passedCheck{}
-			for _, s := range sites {
-				if s.kind != "index" && s.kind != "slice" && s.kind != "contract" && s.kind != "make" {
-					continue
-				}
-				for _, q := range s.reqs {
-					bf.passed[s.ins.Block()] = append(bf.passed[s.ins.Block()], passedCheck{s.ins, q.e})
-				}
-			}
-		}
+		B.ensurePassed(bf, sites)
 		for _, s := range sites {
 			r := bResult{site: s, proved: true}
 			for _, q := range s.reqs {
